@@ -10,21 +10,21 @@ namespace XotModel
 
 mutual
 /-- Erase every namespace node below the root. -/
-def stripNs : Tree → Tree
+def cmpStripNs : Tree → Tree
   | .node v ks => .node v (stripNsList ks)
 def stripNsList : List Tree → List Tree
   | [] => []
-  | k :: ks => if k.value.category == .namespace then stripNsList ks else stripNs k :: stripNsList ks
+  | k :: ks => if k.value.category == .namespace then stripNsList ks else cmpStripNs k :: stripNsList ks
 end
 
-theorem stripNs_value (t : Tree) : (stripNs t).value = t.value := by
-  cases t; simp [stripNs, Tree.value]
+theorem stripNs_value (t : Tree) : (cmpStripNs t).value = t.value := by
+  cases t; simp [cmpStripNs, Tree.value]
 
 mutual
-theorem canon_stripNs : ∀ t : Tree, canon (stripNs t) = canon t
+theorem canon_stripNs : ∀ t : Tree, canon (cmpStripNs t) = canon t
   | .node v ks => by
     have h := canonList_stripNsList ks
-    simp only [stripNs, canon, h.1]
+    simp only [cmpStripNs, canon, h.1]
     cases v <;> simp [cvalue, h.2]
 theorem canonList_stripNsList : ∀ ks : List Tree,
     canon.canonList (stripNsList ks) = canon.canonList ks ∧ attrPairs (stripNsList ks) = attrPairs ks
